@@ -13,7 +13,7 @@ import (
 )
 
 func init() {
-	register("C14", "Variable coercion: (R1) reflect typestate — every reflect.Value method that panics on the zero Value (Type, Interface, Len, Index, MapKeys, MapIndex, SetMapIndex, IsNil, Elem) or on the wrong kind (Len, Index, Map*, IsNil, Elem) is preceded on every path by a validity / kind examination that excludes the panic (path-sensitive facts on IsValid(), Kind()==K, IsNil(); values from Elem() of a possibly nil pointer/interface and from MapIndex are possibly invalid; requirements on parameters are checked at call sites); (R2) nil safety of the coercer under the precondition that the operation passed validation, and its two panics are the 'missing definition' closure case and the default of a kind switch that covers exactly the input kinds; (R3) null is accepted only for nullable types: every success return of the coercer with a possibly invalid value, and every nil stored in the result, lies under NonNull == false; (R4) every value stored in the result map is nil (R3) or the coercer's result for that variable — defaults included; (R5) the success returns of the list case and of the input-object case cannot skip the element loop, the unknown-field loop or the per-field loop; (R6) recursion passes the child's own type (typ.Elem / fieldDef.Type).", runC14)
+	register("C14", "Variable coercion: (R1) reflect typestate — every reflect.Value method that panics on the zero Value (Type, Interface, Len, Index, MapKeys, MapIndex, SetMapIndex, IsNil, Elem) or on the wrong kind (Len, Index, Map*, IsNil, Elem) is preceded on every path by a validity / kind examination that excludes the panic (path-sensitive facts on IsValid(), Kind()==K, IsNil(); values from Elem() of a possibly nil pointer/interface and from MapIndex are possibly invalid; requirements on parameters are checked at call sites); (R2) nil safety of the coercer under the precondition that the operation passed validation, and its two panics are the 'missing definition' closure case and the default of a kind switch that covers exactly the input kinds; (R3) null is accepted only for nullable types: every success return of the coercer with a possibly invalid value, and every nil stored in the result, lies under NonNull == false; (R4) every value stored in the result map is nil (R3) or the coercer's result for that variable — defaults included; (R5) the success returns of the list case and of the input-object case cannot skip the element loop, the unknown-field loop or the per-field loop; (R6) recursion passes the child's own type (typ.Elem / fieldDef.Type); (R7) the per-field loop of the input-object case moves on without coercing a declared field only on paths where the field is absent from the input (MapIndex result known invalid) or its declared type is known nullable.", runC14)
 }
 
 // reflect method tables
@@ -412,6 +412,15 @@ func runC14(c *Ctx) {
 		return
 	}
 	rs.install()
+	// R7 asks, at the skip edges of the per-field loop, whether the supplied field value was valid: keep those facts
+	na.pinned = map[string]bool{}
+	if vt != nil {
+		allInstrs(vt, func(in ssa.Instruction) {
+			if name, _, call, ok := reflMethod(in); ok && name == "MapIndex" {
+				na.pinned[vt.Name()+"/"+call.Name()] = true
+			}
+		})
+	}
 	c.Assume("variable values are JSON-like (nil, bool, numbers, json.Number, strings, slices, maps): reflect.ValueOf of such a value never has kind Ptr or Interface (a typed nil pointer at top level is outside the property's quantifier)")
 
 	// obligations
@@ -745,6 +754,67 @@ func runC14(c *Ctx) {
 		}
 	}
 
+	// ---- R7 a declared field is left uncoerced only when absent or nullable
+	r7 := c.Rule("R7", "a declared input field is skipped only when it is absent or its type is nullable", 2)
+	{
+		headers, bodies := loopsOf(vt)
+		for _, ci := range callsTo([]*ssa.Function{vt}, vt) {
+			a := ci.Common().Args[1]
+			if !loadOfField(a, "FieldDefinition", "Type") {
+				continue
+			}
+			var hdr *ssa.BasicBlock
+			for _, h := range headers {
+				if bodies[h][ci.Block()] && (hdr == nil || len(bodies[h]) < len(bodies[hdr])) {
+					hdr = h
+				}
+			}
+			if hdr == nil {
+				continue
+			}
+			body := bodies[hdr]
+			// the field's value as supplied: the MapIndex call(s) in the loop
+			var supplied []*ssa.Call
+			for b := range body {
+				for _, in := range b.Instrs {
+					if name, _, call, ok := reflMethod(in); ok && name == "MapIndex" && call.Referrers() != nil && len(*call.Referrers()) > 0 {
+						supplied = append(supplied, call)
+					}
+				}
+			}
+			if len(supplied) != 1 {
+				r7.Undecided(hdr.Instrs[0].Pos(), p.FuncName(vt), "per-field loop: supplied value", fmt.Sprintf("the per-field loop reads the supplied field value through %d MapIndex calls; expected one", len(supplied)))
+				continue
+			}
+			sup := reflKey(supplied[0])
+			nnKey := "nn:" + accessPath(a)
+			// skip edges: back edges whose source is not dominated by the coercion call
+			for _, pr := range hdr.Preds {
+				if !body[pr] || ci.Block().Dominates(pr) {
+					continue
+				}
+				term := pr.Instrs[len(pr.Instrs)-1]
+				st := na.stateAt(term)
+				bad := false
+				for _, d := range st {
+					if v, ok := d["rv:"+sup]; ok && v == 0 {
+						continue // absent
+					}
+					if v, ok := d[nnKey]; ok && v == 0 {
+						continue // nullable
+					}
+					bad = true
+				}
+				site := "skip of a declared field at " + p.Pos(lastPos(pr))
+				if bad {
+					r7.Fail(lastPos(pr), p.FuncName(vt), "a supplied field may be skipped although its type may be non-null", "the per-field loop moves on to the next field without coercing this one on a path where the field may be present in the input (its MapIndex result valid — an explicit null included) and its declared type has not been tested nullable: a null stays in a non-null position of the returned value")
+				} else {
+					r7.OK(site, "field absent, or declared type nullable")
+				}
+			}
+		}
+	}
+
 	// ---- R6 recursion passes the child's type
 	r6 := c.Rule("R6", "recursion passes the child's own declared type", 2)
 	for _, ci := range callsTo([]*ssa.Function{vt}, vt) {
@@ -797,4 +867,13 @@ func caseEntryOf(hdr *ssa.BasicBlock) *ssa.BasicBlock {
 		b = d
 	}
 	return hdr.Parent().Blocks[0]
+}
+
+func lastPos(b *ssa.BasicBlock) token.Pos {
+	for i := len(b.Instrs) - 1; i >= 0; i-- {
+		if b.Instrs[i].Pos().IsValid() {
+			return b.Instrs[i].Pos()
+		}
+	}
+	return loopPos(b)
 }
